@@ -136,6 +136,12 @@ fn foreign_frame(addr: u32, k: usize) -> Option<Frame> {
         2 => Some(frames::df17(5, addr, frames::me_velocity(&Vel { st: 1, vew: 301, vns: 77, vr: 31, ..Default::default() }))),
         3 => Some(frames::df17(5, addr, frames::me_ident(4, 3, frames::callsign_codes("EIN45F")))),
         4 => Some(frames::df11(5, addr, 0)),
+        // 100 + s: an identity reply with the s-th of the 4096 Mode A codes (all-octal digit patterns)
+        k if (100..100 + 4096).contains(&k) => {
+            let s = (k - 100) as u32;
+            let sq = (s >> 9 & 7) * 1000 + (s >> 6 & 7) * 100 + (s >> 3 & 7) * 10 + (s & 7);
+            Some(frames::df5(addr, frames::id13_for_squawk(sq)))
+        }
         _ => None,
     }
 }
@@ -339,6 +345,39 @@ fn run(ctx: &mut Ctx) {
                     ctx.count(&format!("observer:{ostr}"));
                 }
             }
+        }
+        // the position does not depend on the Mode A code the row holds: every one of the 4096 codes arrives between
+        // the two frames of a decodable pair
+        squitterator::set_observer_coords_from_str(OBSERVERS[0].0);
+        for block in 0..16usize {
+            job += 1;
+            if !ctx.mine(job) {
+                continue;
+            }
+            let mut pairs = vec![];
+            for s in (block * 256)..((block + 1) * 256) {
+                let (lat, lon) = (mids[s % mids.len()], LONS[2 + s % 5]);
+                pairs.push(Pair { p1: (lat, lon), p2: displace(lat, lon, 1), first_odd: s % 2 == 1, delay_ms: 3000, foreign: 100 + s, ac12: None });
+            }
+            ctx.count_n("lattice:every-squawk-between-the-pair", pairs.len() as u64);
+            run_lattice(ctx, &cfg, OBSERVERS[0].1, OBSERVERS[0].0, &pairs);
+        }
+        // points within a few hundred metres of 0N 0E, in all four quadrants
+        job += 1;
+        if ctx.mine(job) {
+            let mut pairs = vec![];
+            for la in [0.0005f64, 0.00005, 0.002, 0.0009] {
+                for lo in [0.0005f64, 0.00008, 0.003, 0.0009] {
+                    for (sa, so) in [(1.0, 1.0), (1.0, -1.0), (-1.0, 1.0), (-1.0, -1.0)] {
+                        for first_odd in [false, true] {
+                            let p1 = (sa * la, so * lo);
+                            pairs.push(Pair { p1, p2: (p1.0 + sa * 0.0002, p1.1 + so * 0.0002), first_odd, delay_ms: 2000, foreign: 0, ac12: None });
+                        }
+                    }
+                }
+            }
+            ctx.count_n("lattice:near-0N-0E", pairs.len() as u64);
+            run_lattice(ctx, &cfg, OBSERVERS[0].1, OBSERVERS[0].0, &pairs);
         }
         // the position does not depend on what the altitude field says: codes without an altitude
         // (all zero, below 0 ft), 0 ft, a Gillham code, the highest code
